@@ -413,6 +413,15 @@ func redactOne(g *generated, m *sqlredact.Mapping) (string, *sqlredact.Mapping, 
 	return out, m, bi, bv, err
 }
 
+// searchMode: the region of finding C45-keyword-ident-leak is excluded from the main search only
+// while the finding is listed as known; otherwise keyword names are drawn for every position.
+func searchMode() mode {
+	if kf.Listed(findingKeywordLeak) {
+		return modeExclude
+	}
+	return modeAny
+}
+
 func TestC45(t *testing.T) {
 	st := stats.New("C45", "")
 	defer st.Flush()
@@ -425,7 +434,7 @@ func TestC45(t *testing.T) {
 		var m *sqlredact.Mapping
 		nstmt := rapid.IntRange(1, 2).Draw(rt, "nstmt")
 		for s := 0; s < nstmt; s++ {
-			g := genStatement(rt, modeExclude, rapid.IntRange(0, 5).Draw(rt, "mutate") == 0)
+			g := genStatement(rt, searchMode(), rapid.IntRange(0, 5).Draw(rt, "mutate") == 0)
 			for i := 0; i < g.b.excluded; i++ {
 				st.Excluded(findingKeywordLeak)
 			}
@@ -592,13 +601,13 @@ func TestC45Concurrent(t *testing.T) {
 		per := rapid.IntRange(1, 2).Draw(rt, "perGoroutine")
 		m := sqlredact.NewMapping()
 		if rapid.Bool().Draw(rt, "prepopulated") {
-			g := genStatement(rt, modeExclude, false)
+			g := genStatement(rt, searchMode(), false)
 			_, _ = sqlredact.RedactSQLForTraceInto(g.sql, m)
 		}
 		work := make([][]*generated, ng)
 		for i := range work {
 			for j := 0; j < per; j++ {
-				work[i] = append(work[i], genStatement(rt, modeExclude, rapid.IntRange(0, 7).Draw(rt, "mutate") == 0))
+				work[i] = append(work[i], genStatement(rt, searchMode(), rapid.IntRange(0, 7).Draw(rt, "mutate") == 0))
 			}
 		}
 		outs := make([][]string, ng)
